@@ -21,7 +21,7 @@ inductive Cnt | u8 | u16 | u32 | u64 | varuint
 deriving DecidableEq, Repr
 
 /-- a check on the measure of a leaf value (integer value, or byte length) made by the decoder -/
-inductive Guard | none | le (n : Nat) | eq (n : Nat) | ge (n : Nat)
+inductive Guard | none | le (n : Nat) | eq (n : Nat) | ge (n : Nat) | oneOf (l : List Nat)
 deriving DecidableEq, Repr
 
 def Guard.ok : Guard → Nat → Bool
@@ -29,6 +29,7 @@ def Guard.ok : Guard → Nat → Bool
   | .le n, m => m ≤ n
   | .eq n, m => m == n
   | .ge n, m => n ≤ m
+  | .oneOf l, m => l.contains m
 
 inductive Leaf
   | u8 | u16 | u32 | u64 | i64 | bool | varuint
